@@ -17,7 +17,7 @@
      loops is NOT proved; it rests on the correspondence run (all strings up to length 5 over the special alphabet,
      keyword-fragment products, mutation stream: no disagreement and no non-ValueError outcome). *)
 From V Require Import lib.PyBase lib.PyStr model.Validation model.Expo model.TextParser model.OMParser
-  proofs.OMProofs proofs.OMWitness.
+  proofs.OMProofs proofs.OMWitness proofs.OMNhProofs.
 Open Scope N_scope.
 
 (* F12: a native-histogram value without its required fields *)
@@ -78,3 +78,17 @@ Section C14om.
   Qed.
 End C14om.
 Print Assumptions C14_om_checks_total_partial.
+
+(* _compose_deltas never reads its unbound local `elems` (UnboundLocalError): whatever the text of the native-histogram
+   value, the dictionary built from re_deltas.findall holds only captures that start with '-' or a \d character, and
+   those do not strip to the empty text.  Platform fact used (Section hypothesis, checked over all code points by
+   harness/c14om.check_platform_facts at every run): a \d character is not str.strip() whitespace.
+   This is the invariant a pattern accepting the empty list [] breaks. *)
+Theorem C14_om_compose_deltas_bound :
+  forall (is_digit_re : char -> bool) (parse_int : str -> option Z),
+    (forall c, is_digit_re c = true -> is_space_uni c = false) ->
+    forall text l name,
+      om_findall (om_deltas_at is_digit_re) text = Ok l ->
+      om_compose_deltas parse_int (om_dict_of l []) name <> Err UnboundLocalError.
+Proof. exact compose_deltas_bound. Qed.
+Print Assumptions C14_om_compose_deltas_bound.
